@@ -36,12 +36,12 @@ Fixpoint map_orules (f : rule -> option orule) (g : grammar) : option ogrammar :
   end.
 
 (* verif_apply_pass(rules, pass): the HashMap is built from the rules the pass is applied to *)
-Definition apply_pass (extras : bool) (pass : nat) (g : grammar) : option grammar :=
+Definition apply_pass (ovf extras : bool) (pass : nat) (g : grammar) : option grammar :=
   map_rules (fun r =>
     match pass with
     | 0 => rotate_rule r
     | 1 => skip_rule g r
-    | 2 => unroll_rule extras r
+    | 2 => unroll_rule ovf extras r
     | 3 => concat_rule r
     | 4 => factor_rule r
     | 5 => list_rule r
@@ -53,18 +53,18 @@ Definition to_optimized_rules (extras fixpop fixmap restore : bool) (g : grammar
   option_map (fun og => if restore then restore_all fixpop fixmap og else og) (map_orules (rule_to_optimized_rule extras) g).
 
 (* the six AST passes, rule by rule as the iterator chain does; the skipper's map holds the ORIGINAL rules *)
-Definition ast_pipeline_rule (extras : bool) (map : grammar) (r : rule) : option rule :=
-  obind (rotate_rule r) (fun r1 => obind (skip_rule map r1) (fun r2 => obind (unroll_rule extras r2) (fun r3 =>
+Definition ast_pipeline_rule (ovf extras : bool) (map : grammar) (r : rule) : option rule :=
+  obind (rotate_rule r) (fun r1 => obind (skip_rule map r1) (fun r2 => obind (unroll_rule ovf extras r2) (fun r3 =>
   obind (concat_rule r3) (fun r4 => obind (factor_rule r4) (fun r5 => list_rule r5))))).
-Definition front5_rule (extras : bool) (map : grammar) (r : rule) : option rule :=
-  obind (rotate_rule r) (fun r1 => obind (skip_rule map r1) (fun r2 => obind (unroll_rule extras r2) (fun r3 =>
+Definition front5_rule (ovf extras : bool) (map : grammar) (r : rule) : option rule :=
+  obind (rotate_rule r) (fun r1 => obind (skip_rule map r1) (fun r2 => obind (unroll_rule ovf extras r2) (fun r3 =>
   obind (concat_rule r3) (fun r4 => factor_rule r4)))).
-Definition optimize_ast (extras : bool) (g : grammar) : option grammar := map_rules (ast_pipeline_rule extras g) g.
-Definition front5 (extras : bool) (g : grammar) : option grammar := map_rules (front5_rule extras g) g.
+Definition optimize_ast (ovf extras : bool) (g : grammar) : option grammar := map_rules (ast_pipeline_rule ovf extras g) g.
+Definition front5 (ovf extras : bool) (g : grammar) : option grammar := map_rules (front5_rule ovf extras g) g.
 
-Definition optimize (extras fixpop fixmap : bool) (g : grammar) : option ogrammar :=
-  obind (optimize_ast extras g) (to_optimized_rules extras fixpop fixmap true).
+Definition optimize (ovf extras fixpop fixmap : bool) (g : grammar) : option ogrammar :=
+  obind (optimize_ast ovf extras g) (to_optimized_rules extras fixpop fixmap true).
 
 (* the known class: the lister rewrite changes some rule of the grammar (after the five passes before it) *)
-Definition lister_class (extras : bool) (g : grammar) : bool :=
-  match front5 extras g with Some g5 => lister_applies g5 | None => false end.
+Definition lister_class (ovf extras : bool) (g : grammar) : bool :=
+  match front5 ovf extras g with Some g5 => lister_applies g5 | None => false end.
